@@ -20,6 +20,45 @@ def two_site(mp, i):
     return np.tensordot(a, b, axes=([a.ndim - 1], [0]))
 
 
+def variational_generous(run, rng, quick):
+    """`variational_compress(mpo)` with a bond limit far above every Schmidt rank (so that no symmetry sector can be
+    starved) and a poor initial guess (vguess_m small): the 2-site sweep procedure must converge to the dense product."""
+    from renormalizer.model import Model, Op
+    from renormalizer.model.basis import BasisSimpleElectron
+    from renormalizer.mps import Mps, Mpo
+    from renormalizer.utils import CompressConfig, CompressCriteria
+    import lib_chain as lc
+    done = 0
+    for _ in range(2 if quick else 8):
+        n = int(rng.integers(6, 9)) if quick else int(rng.integers(6, 11))
+        np.random.seed(int(rng.integers(2 ** 31)))
+        basis = [BasisSimpleElectron(i) for i in range(n)]
+        terms = [Op(r"a^\dagger a", [i, j], float(rng.uniform(-0.5, 0.5))) for i in range(n) for j in range(n)]
+        model = Model(basis, terms)
+        mpo = Mpo(model)
+        mps = Mps.random(model, n // 2, 6, percent=1.0).canonicalise().canonicalise()
+        ref = mpo.todense() @ lc.dense_state(mps).ravel()
+        M = 4 * 2 ** (n // 2)
+        for name, kw in (("plain-25-sweeps:guess(1,1)", dict(vprocedure=[[M, 0]] * 25, vguess_m=(1, 1))),
+                         ("default-procedure:guess(2,2)", dict(vguess_m=(2, 2)))):
+            work = mps.copy()
+            work.compress_config = CompressConfig(CompressCriteria.fixed, max_bonddim=M, vmethod="2site", **kw)
+            try:
+                out = work.variational_compress(mpo)
+            except Exception as e:  # noqa
+                run.count("variational-generous-raised:" + type(e).__name__)
+                continue
+            done += 1
+            err = float(np.linalg.norm(lc.dense_state(out).ravel() - ref) / np.linalg.norm(ref))
+            run.count("variational-generous:" + name)
+            if err > 1e-6:
+                run.violation("variational:generous-limit:poor-guess:not-converged",
+                              dict(nsite=n, bond_limit=M, config=name, relative_error=err, bond_dims=list(out.bond_dims),
+                                   terms=[(t.symbol, list(t.dofs), float(t.factor)) for t in terms], mps=lc.dump_chain(mps),
+                                   what="variational compression of mpo@mps with a bond limit far above every Schmidt rank stopped away from the product"))
+    return done
+
+
 def main():
     run = Run("C04", level="proof")
     quick = run.tier != "thorough"
@@ -114,6 +153,9 @@ def main():
         if got != e:
             run.violation("corr:sweep-dims", dict(correspondence="RenoVerif.Chain.sweepR vs bond_dims after canonicalise (no symmetry blocks)",
                                                   info=info, model=got), no_input=True)
+    # ---- (c) variational compression with a generous bond limit and a deliberately poor guess must reach mpo @ mps
+    nvar = variational_generous(run, rng, quick)
+    run.cov["variational_generous_cases"] = nvar
     run.cov.update(programs=len(reqs) + made, disagreements_checked=len(reqs) + rec["n"], evaluations=rec["n"] + len(reqs),
                    distinct_nontrivial=len(distinct),
                    rule="random QN-consistent Mps/Mpo/MpDm (2-5 sites, redundant / rank-deficient / dimension-1 bonds) x random gauge histories "
